@@ -21,6 +21,9 @@ KINDS = {
     'auto': (['length = Int(1).describe(Auto(lambda pkt: len(pkt.a)))', 'a = Data(length)'], None),
     'run': (['x = Int(1)', "length = Int(1).describe(AutoLength('a'))", 'y = Int(2)', 'a = Data(length)'], None),
     'sub': (["length = Int(1).describe(AutoLength('a'))", 'a = Data(length)'], ['pre = Int(1)', 'body = Ref(K)', 'post = Int(1)']),
+    # two described fields, a struct-coded one before one without struct code (the sync hooks are indexed)
+    'two': (["length = Int(1).describe(AutoLength('a'))", "m = Int(3).describe(AutoLength('b'))", 'a = Data(length)', "b = Data(m, default=b'pq')"], None),
+    'two-rev': (["m = Int(3).describe(AutoLength('b'))", "length = Int(1).describe(AutoLength('a'))", "b = Data(m, default=b'pq')", 'a = Data(length)'], None),
 }
 CODEPATHS = {
     'generated': {},
@@ -45,10 +48,18 @@ def encode(kind, length, a):
         return b'\x00' + bytes([length & 0xff]) + b'\x00\x00' + a
     if kind == 'sub':
         return b'\x00' + body + b'\x00'
+    if kind == 'two':
+        return bytes([length & 0xff]) + b'\x00\x00\x02' + a + b'pq'
+    if kind == 'two-rev':
+        return b'\x00\x00\x02' + bytes([length & 0xff]) + b'pq' + a
     return body
 
 
 def raw_for(kind, r):
+    if kind == 'two':
+        return r[:1] + b'\x00\x00\x02' + r[1:] + b'pq'
+    if kind == 'two-rev':
+        return b'\x00\x00\x02' + r[:1] + b'pq' + r[1:]
     if kind == 'run':
         return b'\x00' + r[:1] + b'\x00\x00' + r[1:]
     if kind == 'sub':
